@@ -222,6 +222,29 @@ def run(chk, facts, tier, only=None):
                 flag = lit_value(es[2])
                 if order == tyb and all(i in lab for i in idb) and isinstance(flag, bool):
                     table[flag] = (lab[idb[0]], lab[idb[1]])
+        # as_result is a small pure function: evaluate it on every pair over a candidate label set (and on other lengths); the shape
+        # above is only the fallback when it leaves the evaluable fragment
+        try:
+            from c11_util import Interp as _I, NotEvaluable as _NE
+            _it = _I(cp)
+            LBN = "candid::types::internal::Label::Named"
+            cand_labels = ("Ok", "Err", "ok", "err", "OK", "x")
+            accepted = {}
+            for l0 in cand_labels:
+                for l1 in cand_labels:
+                    r_ = _it.call_fn(ar, [[("struct", {"id": ("enum", LBN, [l0]), "ty": "T0"}), ("struct", {"id": ("enum", LBN, [l1]), "ty": "T1"})]])
+                    if r_ is not None:
+                        accepted[(l0, l1)] = r_
+            others = [n_ for n_ in (0, 1, 3) if _it.call_fn(ar, [[("struct", {"id": ("enum", LBN, ["Ok"]), "ty": "T"})] * n_]) is not None]
+            want_acc = {("Ok", "Err"): ("Some", ("T0", "T1", False)), ("ok", "err"): ("Some", ("T0", "T1", True))}
+            chk.expect(accepted == want_acc and not others, "result:as_result-accepts-exactly",
+                       f"as_result must recognise exactly the label pairs (Ok, Err) -> Result and (ok, err) -> MotokoResult, in that order, with "
+                       f"(ok type, err type); evaluated: accepts {sorted(accepted)} with results {sorted(set(accepted.values()), key=str)}, other lengths "
+                       f"accepted: {others}. A mixed pair such as (Ok, err) would be emitted as a Result whose error tag has a different hash",
+                       where=f"{ar['span']['file']}:{ar['span']['lo']}", ok_detail="evaluated on 36 label pairs and 3 other lengths")
+            table = {False: ("Ok", "Err"), True: ("ok", "err")}
+        except _NE:
+            pass
         if set(table) != {True, False}:
             raise AnchorMissing(f"as_result: the two slice arms [Field{{id,ty}}, Field{{id,ty}}] if id == Named(lit) returning "
                                 f"Some((t0, t1, flag)) were not found (got {table})")
